@@ -172,11 +172,15 @@ def check_workbook(ctx, index):
     nsheets = rng.choice([1, 2, 3])
     sheets = [gen_sheet(rng, s + 1) for s in range(nsheets)]
     path = os.path.join(ctx.tmp, "w.xlsx")
-    storage.write_xlsx(path, sheets, typed=True)
+    # some of the sheets hidden from the application's tabs: the Sheet property counts the sheets of the workbook
+    hidden = tuple(sorted(rng.sample(range(nsheets), rng.randint(1, nsheets - 1)))) if nsheets >= 2 and rng.random() < 0.3 else ()
+    if hidden:
+        ctx.count("workbooks.with-hidden-sheets")
+    storage.write_xlsx(path, sheets, typed=True, hidden=hidden)
     wants = [expected_rows(t) for t in sheets]
     for k in range(1, nsheets + 1):
         want = wants[k - 1]
-        case = {"sheets": [jsonable_table(t) for t in sheets], "sheet": k, "via": "excel_rows",
+        case = {"sheets": [jsonable_table(t) for t in sheets], "sheet": k, "via": "excel_rows", "hidden_sheets": [h + 1 for h in hidden],
                 "other_sheets_expected": [w for i, w in enumerate(wants) if i != k - 1 and None not in [c for r in w for c in r]]}
         nontrivial = k > 1 or any(c[0] != "string" for row in sheets[k - 1] for c in row)
         ctx.case({"sheets": case["sheets"], "sheet": k, "via": "excel_rows"}, nontrivial)
@@ -348,7 +352,7 @@ def replay(ctx, case):
     from cutplace import rowio
 
     path = os.path.join(ctx.tmp, "w.xlsx")
-    storage.write_xlsx(path, sheets, typed=True)
+    storage.write_xlsx(path, sheets, typed=True, hidden=tuple(h - 1 for h in case.get("hidden_sheets", ())))
     k = case["sheet"]
     want = expected_rows(sheets[k - 1])
     ctx.case(case, True)
